@@ -117,6 +117,9 @@ def fold(e, env, consts=None):
             if isinstance(e.op, ast.FloorDiv): return a // b
             if isinstance(e.op, ast.Mod) and isinstance(a, int): return a % b
             if isinstance(e.op, ast.LShift) and isinstance(b, int) and 0 <= b <= 4096: return a << b
+            if isinstance(e.op, ast.RShift) and isinstance(b, int) and 0 <= b <= 4096: return a >> b
+            if isinstance(e.op, ast.BitAnd) and isinstance(a, int) and isinstance(b, int): return a & b
+            if isinstance(e.op, ast.BitOr) and isinstance(a, int) and isinstance(b, int): return a | b
         except (TypeError, ZeroDivisionError):
             raise Unknown('arithmetic on %r, %r' % (a, b))
         raise Unknown(type(e.op).__name__)
@@ -147,8 +150,11 @@ def fold(e, env, consts=None):
         name = canon(fn)
         if name in CONSTRUCTORS:
             return Opaque(name.split('.')[-1], tuple(f(a) for a in e.args), tuple(sorted((kw.arg, f(kw.value)) for kw in e.keywords if kw.arg)))
-        if name in ('bool', 'int', 'str', 'len', 'tuple') and len(e.args) == 1 and not e.keywords:
-            return {'bool': bool, 'int': int, 'str': str, 'len': len, 'tuple': tuple}[name](f(e.args[0]))
+        if name in ('bool', 'int', 'str', 'len', 'tuple', 'abs') and len(e.args) == 1 and not e.keywords:
+            try:
+                return {'bool': bool, 'int': int, 'str': str, 'len': len, 'tuple': tuple, 'abs': abs}[name](f(e.args[0]))
+            except (TypeError, ValueError):
+                raise Unknown('%s of a value it does not take' % name)
         if name in ('zip', 'range', 'enumerate', 'sorted', 'reversed', 'list', 'dict', 'set', 'frozenset') and not e.keywords \
                 and not any(isinstance(a, ast.Starred) for a in e.args):
             # pure builtins over constants (the tables a module computes once, at import)
